@@ -3,6 +3,7 @@
 
 import copy
 import dataclasses
+import uuid
 from pprint import pformat
 from typing import Optional
 from uuid import UUID
@@ -381,7 +382,9 @@ def transfer_col_references(table, ref_source):
     new = copy.copy(table)
     new._ast = Alias(
         new._ast,
-        uuid_map={uid: ref_source._cache.name_to_uuid[name] for uid, name in table._cache.uuid_to_name.items()},
+        # hidden columns of `table` have no counterpart in `ref_source`
+        uuid_map={uid: uuid.uuid1() for uid in table._cache.cols.keys() if uid not in table._cache.uuid_to_name}
+        | {uid: ref_source._cache.name_to_uuid[name] for uid, name in table._cache.uuid_to_name.items()},
     )
     new._cache = table._cache.update(new._ast)
 
